@@ -18,6 +18,10 @@ CLAIMS = {
             "Decides a structural necessary condition on ALL paths of ALL allocation entry points: per successful path exactly one atom / one heap contribution / one pair, none on failing paths; restore field coverage; reporters. Not the arithmetic of sizes.",
             "Trusts rustc's MIR and the effect recogniser (Vec method names, ghost counter field names resolved by type); bulk append loop tied to the checked size by C13. Known finding: new_substr small-integer slice counted on the heap.",
             "DESIGN.md 4/C12"),
+    "C04": ("path-sensitive effect counting of the value-preserving restore per verdict (T3), field-matched checkpoint tables, dominance/post-dominance pairing of checkpoint and RestoreAllocator pushes, verdict-switch region analysis in the run loop",
+            "Decides the accounting and plumbing clauses on ALL paths: transparent restore count-neutral; Aborted/NoReplace/Replace each change exactly what they must (and compensate before re-creating); node classification uses same-kind counts; the interpreter pairs every checkpoint with one RestoreAllocator below the Apply, replaces the top iff Replace, charges 0; ENABLE_GC read only by gc_candidate. Not that no live node is invalidated (heap-shape invariant).",
+            "Trusts rustc's MIR; the gc-candidate opcode list is deliberately not checked (the restore is value-safe for any operator).",
+            "DESIGN.md 4/C04"),
     "C06": ("sibling agreement: canonical CFG serialisation of MIR (DFS block order, first-occurrence local renaming, callee/type maps) and exact comparison",
             "Decides that each op_X's non-MALACHITE body and op_X_malachite are the SAME program up to the bignum library (every threshold, flag test, cost expression, message and the order of checks), that the prologue forwards unchanged, that the two canonical-integer encoders are the same program and that nothing else reads the flag. All ~1200 canonical MIR lines of the 5 pairs are compared.",
             "Assumes the two bignum libraries agree on methods of the same name (div_floor, div_mod_floor, modpow, sign, to_signed_bytes_be, to_u32) and that int_atom/malachite_int_atom decode the same value and length: library semantics are not decided. A one-sided behaviour-preserving restructure is reported (the siblings are meant to stay parallel).",
